@@ -255,3 +255,27 @@ package gorp
 //@   ensures  !__in(s.reverse, key)
 //@   ensures  forall k K :: k != key ==> __in(s.reverse, k) == old(__in(s.reverse, k)) && s.reverse[k] == old(s.reverse[k])
 //@   modifies &s.entries, s.reverse
+
+//@ # ---- commit order vs index flush (C17 over schedules: "two transactions updating the same row").
+//@ # Ghost: SpecApplied counts the key-value commits applied to the store; SpecFlushed is the
+//@ # highest such number whose staged index changes have been flushed into the committed index.
+//@ # For the committed index to agree with the store, flushes must happen in the order of the
+//@ # key-value commits: when a transaction flushes, no transaction applied after it may have
+//@ # flushed already. Between the two steps of Commit other transactions may commit and flush
+//@ # (havoc + rely: both counters only grow).
+//@ # (SpecApplied lives in x/kv with the trusted contract of Tx.Commit)
+//@ ghost SpecFlushed *int
+//@ import kv "github.com/synnaxlabs/x/kv"
+//@ trusted func (s *txState) runCleanups(committed bool)
+//@   modifies SpecFlushed
+//@ func (t *tx) Commit(ctx context.Context, opts ...any) (err error)
+//@   # nothing is flushed that has not been applied (without the interference below the assertion
+//@   # is provable from this: the transaction's own number is old applied + 1)
+//@   requires SpecFlushed != kv.SpecApplied && *SpecFlushed <= *kv.SpecApplied
+//@   let_after "err := t.Tx.Commit(ctx, opts...)" mine int = *kv.SpecApplied
+//@   havoc_after "err := t.Tx.Commit(ctx, opts...)" kv.SpecApplied
+//@   havoc_after "err := t.Tx.Commit(ctx, opts...)" SpecFlushed
+//@   assume_after "err := t.Tx.Commit(ctx, opts...)" *kv.SpecApplied >= mine && *SpecFlushed >= old(*SpecFlushed) && *SpecFlushed <= *kv.SpecApplied
+//@   # FAILS: nothing orders the flush with the key-value commit (known finding)
+//@   assert_before "t.state.runCleanups(err == nil)" err == nil ==> *SpecFlushed < mine
+//@   modifies kv.SpecApplied, SpecFlushed
